@@ -320,6 +320,62 @@ def make_config(rng, prog, how, tmpdir):
     return apply
 
 
+def call_site_ids(d):
+    """-> (sequence of base codes in registration order, flat [(code, k)...], base names)"""
+    import re as _re
+    seq_, got_, codes_ = [], [], {}
+    for nid_, xn_ in d.exec_nodes.items():
+        if type(xn_).__name__ in ("ArgExecNode", "ReturnExecNode"):
+            continue
+        mm_ = _re.match(r"^(.*)<<(\d+)>>$", nid_)
+        b_, k_ = (mm_.group(1), int(mm_.group(2))) if mm_ else (nid_, 0)
+        c_ = codes_.setdefault(b_, len(codes_))
+        seq_.append(c_)
+        got_ += [c_, k_]
+    return seq_, got_, sorted(codes_, key=codes_.get)
+
+
+def run_ids(pid, tier, seed, res, only=None):
+    """K-ids alone (C03: one node, hence one execution, per call site): generated describing functions that
+    reuse functions across call sites and nest DAGs are BUILT, and the ids tawazi gave to the recorded call
+    sites are compared with Ids.kids."""
+    rng = random.Random(seed * 2750159 + 7)
+    n = 200 if tier == "quick" else 3000
+    items, where = [], []
+    nb = 0
+    for _ in range(n):
+        prog = kvalue.gen_prog(rng, max_stmts=9 if tier == "quick" else 14, p_sub=0.25, p_flag=0.1)
+        kvalue._K.cur = Keys()
+        try:
+            d = kvalue.build_tawazi(prog, {})
+        except BaseException:  # noqa: BLE001
+            nb += 1
+            continue
+        seq_, got_, names_ = call_site_ids(d)
+        res.evaluations += 1
+        if len(seq_) > len(set(seq_)):
+            res.distinct.add(hashlib.sha1(json.dumps(prog, sort_keys=True).encode()).hexdigest()[:12])
+        ids_all = [k for k, x in d.exec_nodes.items()]
+        if len(set(ids_all)) != len(ids_all):
+            res.hit("C03", "monitor", "two nodes of one DAG share an id", dict(engine="kids", prog=prog, kind="monitor"))
+        where.append((prog, got_, names_))
+        items.append("kids %s" % coqrun.nat_list(seq_))
+    prefix = "kids_%s" % pid
+    coqrun.clean_build(prefix)
+    paths = coqrun.write_shards(prefix, "Ids", items, per_file=200)
+    results, errors = coqrun.run_shards(paths)
+    coqrun.clean_build(prefix)
+    if errors:
+        res.hit(pid, "divergence", "coqc failed on K-ids case files: " + errors[0][2][-300:], dict(kind="coqc-error"))
+    for k, (prog, got_, names_) in enumerate(where):
+        v = results.get(k)
+        if v is None:
+            res.hit(pid, "divergence", "no model result (K-ids)", dict(engine="kids", prog=prog, kind="no-result"))
+        elif v != got_:
+            res.hit("C03", "divergence", "K-ids: the ids of the recorded call sites %s are not `base` for the first use and `base<<k>>` for the (k+1)-th (functions %s; model %s)" % (got_[:30], names_[:8], v[:30]), dict(engine="kids", prog=prog, kind="divergence"))
+    res.engine_info["kids"] = dict(programs=len(where), build_errors=nb)
+
+
 def run(pid, tier, seed, res, p_sub=None, p_flag=None, only=None):
     import os
     rng = random.Random(seed * 15485863 + 3)
@@ -338,7 +394,7 @@ def run(pid, tier, seed, res, p_sub=None, p_flag=None, only=None):
     fixed_args = None
     if only is not None:
         progs = [o["prog"] for o in only]
-        fixed_args = [[kvalue.Const(a[1], bool(a[2])) for a in o["args"]] for o in only]
+        fixed_args = [[None if a == [0] else kvalue.Const(a[1], bool(a[2])) for a in o["args"]] for o in only]
     for pi, prog in enumerate(progs):
         argsets = [kvalue.gen_args(rng, prog) for _ in range(2)] if fixed_args is None else [fixed_args[pi], fixed_args[pi]]
         for ai, args in enumerate(argsets):
@@ -414,6 +470,11 @@ def run(pid, tier, seed, res, p_sub=None, p_flag=None, only=None):
                 continue
             where.append(("kvalue", pi, ai, r, m, base))
             items.append(m["kvalue"])
+            # call-site ids: first use `base`, (k+1)-th use `base<<k>>`, in registration order (Ids.v)
+            if ai == 0:
+                seq_, got_, names_ = call_site_ids(r["dag"])
+                where.append(("ids", pi, ai, r, dict(expect=got_, names=names_), base))
+                items.append("kids %s" % coqrun.nat_list(seq_))
             # argument binding: what the scheduler was handed vs Args.bind on the DAG-level map
             try:
                 d_ = r["dag"]
@@ -459,7 +520,7 @@ def run(pid, tier, seed, res, p_sub=None, p_flag=None, only=None):
                     items.append(em["b"])
     prefix = "kvalue_%s" % pid
     coqrun.clean_build(prefix)
-    paths = coqrun.write_shards(prefix, "Graph Sched Dataflow Terms IsoCheck Args ArgsCheck", items, per_file=60)
+    paths = coqrun.write_shards(prefix, "Graph Sched Dataflow Terms IsoCheck Args ArgsCheck Ids", items, per_file=60)
     import time as _t
     _t0 = _t.time()
     results, errors = coqrun.run_shards(paths)
@@ -476,6 +537,11 @@ def run(pid, tier, seed, res, p_sub=None, p_flag=None, only=None):
             continue
         (si, vi) = r["impl"]
         props_ = ["C01", "C02"] + (["C10"] if has_flags(prog) else []) + (["C20"] if has_subs(prog) else [])
+        if kind == "ids":
+            if v != m["expect"]:
+                for p in ("C03", "C01"):
+                    res.hit(p, "divergence", "K-ids: the ids of the recorded call sites %s are not `base` for the first use and `base<<k>>` for the (k+1)-th (functions %s; model %s)" % (m["expect"][:30], m["names"][:8], v[:30]), dict(base, kind="divergence"))
+            continue
         if kind == "bind":
             if v != m["expect"]:
                 for p in ["C01", "C15"] + (["C10"] if has_flags(prog) else []) + (["C20"] if has_subs(prog) else []):
